@@ -71,6 +71,17 @@ bool stampedNow(void* world, uint64_t entity, uint32_t component_id) {
     return a->getComponentVersion(idx, id).toInt() + 1u == static_cast<World*>(world)->version().toInt();
 }
 
+// after bumpVersion(): did an access made since stamp this component of the entity (chunk version == world version)?
+bool stampedSince(void* world, uint64_t entity, uint32_t component_id) {
+    auto& m = em(world);
+    Archetype* a = m.getArchetypeOf(ent(entity));
+    if (!a) return false;
+    const auto id = ComponentId::make(component_id);
+    if (!a->hasComponent(id)) return false;
+    const auto idx = ArchetypeEntityIndex::make(verif::Access::locIndex(m, ent(entity)));
+    return a->getComponentVersion(idx, id).toInt() == static_cast<World*>(world)->version().toInt();
+}
+
 // harness instrumentation around a job run: makes every earlier stamp strictly older than what the run writes
 void bumpVersion(void* world) { static_cast<World*>(world)->incrementVersion(); }
 
